@@ -4,11 +4,14 @@ package main
 // every result canonically.
 
 import (
+	"bytes"
 	"fmt"
 	"io"
+	"reflect"
 	"runtime"
 	"strconv"
 	"strings"
+	"text/template"
 	"time"
 
 	"simrt"
@@ -297,6 +300,48 @@ func isNilReader(rd io.Reader) bool {
 	return isNilObj(rd)
 }
 
+// deepCopyPtr returns a copy of a pointer-to-struct value in which every nested
+// pointer-to-struct (the embedded lower-level reports) is a fresh allocation too.
+func deepCopyPtr(v reflect.Value) reflect.Value {
+	if v.Kind() != reflect.Ptr || v.IsNil() || v.Elem().Kind() != reflect.Struct {
+		return v
+	}
+	n := reflect.New(v.Elem().Type())
+	n.Elem().Set(v.Elem())
+	for i := 0; i < n.Elem().NumField(); i++ {
+		f := n.Elem().Field(i)
+		if f.Kind() == reflect.Ptr && f.CanSet() && !f.IsNil() && f.Elem().Kind() == reflect.Struct {
+			f.Set(deepCopyPtr(f))
+		}
+	}
+	return n
+}
+
+// addrDependent reports whether what text/template renders for this template
+// depends on WHERE the report lives in memory (a template that prints the report
+// value itself, e.g. `{{printf "%d" $}}`, prints the address of the embedded
+// lower-level report).  Such output legitimately differs between two equal
+// reports, so it cannot be compared across objects, phases or processes.  Decided
+// with text/template itself over the report and a deep copy of it.
+func addrDependent(rep any, text string) bool {
+	t, err := template.New("verif-addr-probe").Parse(text)
+	if err != nil {
+		return false
+	}
+	var a, b bytes.Buffer
+	if err := t.Execute(&a, rep); err != nil {
+		return false
+	}
+	cp := deepCopyPtr(reflect.ValueOf(rep))
+	if !cp.IsValid() || !cp.CanInterface() {
+		return false
+	}
+	if err := t.Execute(&b, cp.Interface()); err != nil {
+		return false
+	}
+	return a.String() != b.String()
+}
+
 func (c *taskCtx) doExport(rep any, op *Op) (io.Reader, error) {
 	ex, ok := rep.(exporter)
 	if !ok {
@@ -387,6 +432,13 @@ func (c *taskCtx) execOp(op *Op) string {
 			rd, err := c.doExport(r.rep, op)
 			if err != nil {
 				c.nExpE++
+			}
+			if err == nil && addrDependent(r.rep, op.Tmpl) {
+				// prints an address: not comparable across objects
+				if rd != nil && !isNilReader(rd) {
+					_, _ = io.ReadAll(rd)
+				}
+				return "out=<depends on the address of the report> err=nil"
 			}
 			if op.Defer {
 				// the reader is read by a later "read" operation, after other work
